@@ -334,9 +334,10 @@ type c24payoutEnv struct {
 	bonus    uint64
 	sinkPost uint64
 	sinkMin  uint64 // the fee sink's own minimum balance (base + one unit per asset it holds)
+	sinkAsa  basics.AssetIndex // asset the fee sink holds (0: none)
 }
 
-func (e *c24payoutEnv) run(r *ve.Run, proposerKind int, claimSel int) {
+func (e *c24payoutEnv) run(r *ve.Run, proposerKind int, claimSel int, sinkTx bool) {
 	ev, err := c24startEval(e.l)
 	if err != nil {
 		panic("harness: " + err.Error())
@@ -348,6 +349,17 @@ func (e *c24payoutEnv) run(r *ve.Run, proposerKind int, claimSel int) {
 		grp := []transactions.SignedTxn{tx.SignedTxn()}
 		if err := ev.TransactionGroup(transactions.WrapSignedTxnsWithAD(grp)...); err != nil {
 			panic("harness: fee-carrying payment rejected: " + err.Error())
+		}
+	}
+	if sinkTx {
+		// the fee sink itself sends a NON-payment transaction with a large fee: the fee goes from the
+		// sink to the sink, nothing is collected, so neither FeesCollected nor the allowed payout move
+		tx := &txntest.Txn{Type: protocol.AssetTransferTx, Sender: e.sink, AssetReceiver: e.sink, XferAsset: e.sinkAsa, Fee: 7 * e.proto.MinTxnFee,
+			FirstValid: ev.Round(), GenesisHash: e.l.GenesisHash(), Note: "c24 sink self"}
+		tx.FillDefaults(e.proto)
+		grp := []transactions.SignedTxn{tx.SignedTxn()}
+		if err := ev.TransactionGroup(transactions.WrapSignedTxnsWithAD(grp)...); err != nil {
+			panic("harness: fee sink's own asset transfer rejected: " + err.Error())
 		}
 	}
 	ub, err := ev.GenerateBlock(nil)
@@ -373,6 +385,10 @@ func (e *c24payoutEnv) run(r *ve.Run, proposerKind int, claimSel int) {
 	allowed := allowedB.Uint64()
 
 	cs := c24payoutCase{Bonus: e.bonus, Fees: e.fees, Sink: e.sinkPost, Allowed: allowed, SinkMin: minBal}
+	if sinkTx && gen.BlockHeader.FeesCollected.Raw != e.fees {
+		r.Report("C24:sink-own-fee-collected", fmt.Sprintf("block with a fee-sink-sent asset transfer (fee %d, paid by the sink to itself) reports FeesCollected %d; really collected: %d (%+v)", 7*e.proto.MinTxnFee, gen.BlockHeader.FeesCollected.Raw, e.fees, cs), cs)
+		return
+	}
 	if gen.BlockHeader.Bonus.Raw != e.bonus || gen.BlockHeader.FeesCollected.Raw != e.fees {
 		panic(fmt.Sprintf("harness: generated header has bonus %d fees %d, expected %d %d", gen.BlockHeader.Bonus.Raw, gen.BlockHeader.FeesCollected.Raw, e.bonus, e.fees))
 	}
@@ -584,12 +600,14 @@ func TestVerif_C24(t *testing.T) {
 							t.Fatalf("harness: %v", err)
 						}
 						ledgers = append(ledgers, l)
+						var sinkAsa basics.AssetIndex
 						if sinkAsset {
 							// committed history: an asset is created and the fee sink opts in to it
 							// (blocks proposed by the sink itself, so payouts do not move money)
 							ev := nextBlock(t, l)
 							txn(t, l, ev, &txntest.Txn{Type: "acfg", Sender: addrs[0], AssetParams: basics.AssetParams{Total: 10, UnitName: "c24"}})
 							asa := basics.AssetIndex(ev.TestingTxnCounter())
+							sinkAsa = asa
 							endBlock(t, l, ev)
 							ev = nextBlock(t, l)
 							txn(t, l, ev, &txntest.Txn{Type: "axfer", Sender: gb.FeeSink, AssetReceiver: gb.FeeSink, XferAsset: asa})
@@ -598,14 +616,17 @@ func TestVerif_C24(t *testing.T) {
 						if have := micros(t, l, gb.FeeSink); have != sinkPost-fees {
 							t.Fatalf("harness: fee sink holds %d after setup, wanted %d", have, sinkPost-fees)
 						}
-						e := &c24payoutEnv{l: l, proto: config.Consensus[pcv], addrs: addrs, sink: gb.FeeSink, fees: fees, bonus: bonus, sinkPost: sinkPost, sinkMin: minBal}
-						dims := []int{3, 6}
+						e := &c24payoutEnv{l: l, proto: config.Consensus[pcv], addrs: addrs, sink: gb.FeeSink, fees: fees, bonus: bonus, sinkPost: sinkPost, sinkMin: minBal, sinkAsa: sinkAsa}
+						dims := []int{3, 6, 1}
+						if sinkAsset {
+							dims[2] = 2 // with / without a fee-carrying non-payment transaction sent by the sink itself
+						}
 						total := ve.ProductSize(dims)
 						nCases += total
 						r.ParallelFor(total, func(i int) {
-							idx := make([]int, 2)
+							idx := make([]int, 3)
 							ve.Unrank(i, dims, idx)
-							e.run(r, idx[0], idx[1])
+							e.run(r, idx[0], idx[1], idx[2] == 1)
 						})
 						if len(seen) == 4 {
 							r.Sample(c24payoutCase{Bonus: bonus, Fees: fees, Sink: sinkPost, Proposer: "funded", Claim: 0, SinkMin: minBal})
@@ -621,7 +642,7 @@ func TestVerif_C24(t *testing.T) {
 	r.Assume("transactions are unsigned and signature verification is mocked (verify.GetMockedCache): fees and payouts do not depend on signatures")
 	r.Assume("fee-sink minimum balance = proto.MinBalance, or 2*proto.MinBalance in the ledgers where the sink opted in to one asset (harness formula: one base unit per asset holding)")
 	r.Assume("inner payments are issued one per itxn_submit, in program order; their fee is paid by the funded app account")
-	n := r.Finish(ve.Coverage{Rule: "A: every group of 1..3 txns over 6 shapes (pay, big-note pay, app calls with 1-2 inner payments at inner fee 0/min/2min) x fees {0,min-1,min,2min,3min} (quick: n=3 over 3 shapes) through the real evaluator vs the harness' integer fee rule; B: bonus {0,b} x fees {0,1001,3001} x fee sink {plain, opted in to an asset} x up to 6 fee-sink balances around ITS minBalance and minBalance+payout x 3 proposer kinds x claimed payout {0,allowed-1,allowed,allowed+1,2^64-1,generator's} re-evaluated with validation vs allowed=min(pct*fees+bonus, sink-minBalance)", Exhaustive: true})
+	n := r.Finish(ve.Coverage{Rule: "A: every group of 1..3 txns over 6 shapes (pay, big-note pay, app calls with 1-2 inner payments at inner fee 0/min/2min) x fees {0,min-1,min,2min,3min} (quick: n=3 over 3 shapes) through the real evaluator vs the harness' integer fee rule; B: bonus {0,b} x fees {0,1001,3001} x fee sink {plain, opted in to an asset (then also: the sink itself sends a fee-carrying asset transfer in the block)} x up to 6 fee-sink balances around ITS minBalance and minBalance+payout x 3 proposer kinds x claimed payout {0,allowed-1,allowed,allowed+1,2^64-1,generator's} re-evaluated with validation vs allowed=min(pct*fees+bonus, sink-minBalance)", Exhaustive: true})
 	if n > 0 {
 		t.Fatal("violations")
 	}
